@@ -318,6 +318,68 @@ def windowed(rng, sched):
     return dict(sched, events=out, name="w_" + sched["name"], profile="window")
 
 
+MICRO_OPS = ("put", "put_w", "put_ttl", "put_w_ttl", "upsert", "delete", "get", "map_get", "get_ref", "map_get_ref", "shutdown")
+
+
+def microed(rng, sched, density=0.6, keep_shutdown=False):
+    """Turns a phase-contiguous schedule into a micro schedule: many calls are started in point-stepping mode (`callp`) and
+    their remaining micro steps (`run tid`) are spread over the following events, so that other callers, the worker, the
+    sweeper and the consumer overtake them; worker commands are started with `workerp` and continued with `runw`.
+    A caller is not given another call while it is inside one (the harness would skip it)."""
+    evs = [e for e in sched["events"] if keep_shutdown or not e.endswith(" shutdown")]
+    out = []
+    open_calls = {}          # tid -> steps that may still be needed (upper bound)
+    worker_open = 0
+    def pump():
+        # every open call / command takes its next step with some probability
+        for tid in list(open_calls):
+            if rng.random() < 0.45:
+                out.append("run " + tid)
+                open_calls[tid] -= 1
+                if open_calls[tid] <= 0:
+                    del open_calls[tid]
+        nonlocal worker_open
+        if worker_open and rng.random() < 0.5:
+            out.append("runw")
+            worker_open -= 1
+    for e in evs:
+        p = e.split()
+        if p[0] in ("call", "run") and p[1] in open_calls:
+            # finish the open call of this caller first
+            for _ in range(open_calls.pop(p[1])):
+                out.append("run " + p[1])
+        if p[0] == "call" and p[2] in MICRO_OPS and rng.random() < density:
+            out.append("callp " + " ".join(p[1:]))
+            open_calls[p[1]] = 7 if p[2] == "shutdown" else 4
+        elif p[0] == "worker" and rng.random() < density:
+            if worker_open:
+                out.extend(["runw"] * worker_open)
+            out.append("workerp")
+            worker_open = 2
+        else:
+            if p[0] == "worker" and worker_open:
+                out.extend(["runw"] * worker_open)
+                worker_open = 0
+            out.append(e)
+        pump()
+    for tid, n in open_calls.items():
+        out.extend(["run " + tid] * n)
+    out.extend(["runw"] * worker_open)
+    out.append("call 0 stats")
+    out.append("call 0 weight_used")
+    cfg = dict(sched["cfg"], points="micro")
+    return dict(sched, cfg=cfg, events=out, name="m_" + sched["name"], profile="micro")
+
+
+def generate_micro(seed, count, profiles=("general", "ttl", "reads", "queue1", "awaited", "shutdown"), density=0.6):
+    g = Gen(seed)
+    out = []
+    for i in range(count):
+        profile = profiles[i % len(profiles)]
+        out.append(microed(g.rng, g.schedule("s%d_%s_%d" % (seed, profile, i), profile), density, keep_shutdown=(profile == "shutdown")))
+    return out
+
+
 def generate_window(seed, count, profiles=("ttl", "general", "ttlchain", "upsertpipe")):
     g = Gen(seed)
     out = []
